@@ -44,6 +44,7 @@ structure Inst where
   running : Bool := false          -- started and no stop call since
   everStopped : Bool := false      -- a stop call has been made since the last Start
   ctxNil : Bool := true            -- e.ctx == nil: never started, or a StopWithContext completed
+  ending : Bool := false           -- the library has reported the duration of the term in progress: the critical section that ends it is running
   ctxCancelled : Bool := false     -- the caller's context of the current run has been cancelled (no stop call): nothing runs, a leader steps down
   startFailed : Bool := false      -- the last Start failed half-way (connection monitor): a cancelled context is installed and `stopped` is reset
   flag : Bool := false
@@ -73,7 +74,7 @@ def reject {α} (msg : String) : R α := .error msg
     its contexts are cancelled — and the demotion callback is owed iff a term ended and callbacks are registered;
     it is owed by the stop call when the state is already STOPPED, by `stepDown` otherwise. -/
 def clearFlag (x : Inst) : Inst :=
-  { x with pendingFlag := none, flag := false,
+  { x with pendingFlag := none, flag := false, ending := false,
            ctxs := if x.flag then x.ctxs.map (fun c => { c with termOver := true }) else x.ctxs,
            stopDemoteOwed := if x.state = 5 ∧ x.flag = true ∧ x.callbacks = true then x.stopDemoteOwed + 1 else x.stopDemoteOwed,
            demoteOwed := if x.state ≠ 5 ∧ x.flag = true ∧ x.callbacks = true then x.demoteOwed + 1 else x.demoteOwed }
@@ -122,7 +123,8 @@ def stepPromote (x : Inst) (tok cid : Nat) (dn : Bool) : R Inst :=
 def stepCtxDone (x : Inst) (cid : Nat) : R Inst :=
   match x.ctxs.find? (·.cid = cid) with
   | some c =>
-    if c.termOver ∨ ¬ c.cbRunning then
+    -- (a stop call that has begun cancels the run's context first and lowers the flag later in its critical section)
+    if c.termOver ∨ ¬ c.cbRunning ∨ x.stopPendingTrans ∨ x.ctxCancelled ∨ x.ending then
       pure { x with ctxs := x.ctxs.map fun c => if c.cid = cid then { c with cancelled := true } else c }
     else reject s!"instance {x.id}: promotion context {cid} cancelled while its term is in progress and the callback runs"
   | none => reject s!"instance {x.id}: unknown promotion context {cid}"
@@ -155,6 +157,7 @@ def stepInst (x : Inst) (e : Ev) : R Inst :=
     pure { x with ctxs := x.ctxs.map fun c => if c.cid = cid then { c with cbRunning := false } else c }
   | .ctxDone _ cid => stepCtxDone x cid
   | .demote _ => stepDemote x
+  | .observe _ => pure { x with ending := true }
   | .status _ st il _ tok _ il2 =>
     match statusOk x st il tok il2 with
     | some msg => reject msg
@@ -240,7 +243,7 @@ def step (s : Sys) (te : TEv) : R Sys :=
   | e =>
     let who : Option Nat := match e with
       | .trans i _ _ => some i | .flag i _ _ _ _ => some i | .promote i _ _ _ => some i | .promoteRet i _ => some i
-      | .ctxDone i _ => some i | .demote i => some i | .status i _ _ _ _ _ _ => some i
+      | .ctxDone i _ => some i | .demote i => some i | .status i _ _ _ _ _ _ => some i | .observe i => some i
       | _ => none
     match who with
     | none => pure s
